@@ -391,6 +391,8 @@ def run(R):
     scens = ['freeT', 'fluid', 'shift_z', 'noshift', 'onshell_comp'] if R.tier == 'quick' else ['freeT', 'fluid', 'fluid_comp', 'onshell', 'onshell_comp', 'noshift', 'shift_x', 'shift_y', 'shift_z']
     for f in ALG_FUNCS:
         function_obligations(R, W, f, scens, npoints=npts)
+    from props.regimes import regime_obligations
+    regime_obligations(R, list(ALG_FUNCS))
     helper_obligations(R, W, scens[0], only=set(ALG_HELPERS), npoints=npts)
     lemma_obligations(R, W, ALGEBRA_LEMMAS, ['freeT', 'onshell'], npoints=npts)
     # 'the Riemann and Weyl outputs have their algebraic symmetries': both branches of st_Weyl_down4 (from the cached
